@@ -320,10 +320,10 @@ C(f"{F}:Parser.proc_pyexpr", params={"self": "obj:Parser", "expr": EXPR, **LOCS}
 # subprocess operators: `$(..)`, `$[..]`, `!(..)`, `![..]` are calls of the four documented entry points on the grouped arguments (A0: the list as given)
 METHODS = "subproc_captured|subproc_uncaptured|subproc_captured_object|subproc_captured_hiddenobject"
 C(f"{F}:Parser.handle_proc", params={"self": "obj:Parser", "method": f"oneof[{METHODS}]", "args": "seq[val]", **LOCS}, inline=INL,
-  ensures=[f"implies(method == '{m}', is_translation(result, '__xonsh__.{m}(*A0)', args))" for m in METHODS.split("|")] + [f"all_located(result, {LOCARGS})"],
+  ensures=[f"implies(method == '{m}', is_translation(result, '__xonsh__.{m}(*A0)', args))" for m in METHODS.split("|")] + [f"all_located(result, {LOCARGS}, args)"],
   raises=[], pure=True, properties=["C05", "C06"])
 C(f"{F}:Parser.proc_inject", params={"self": "obj:Parser", "args": "seq[val]", **LOCS}, inline=INL,
-  ensures=["isinstance(result, ast.Starred) and is_translation(result.value, '__xonsh__.subproc_captured_inject(*A0)', args)", "result.ctx is Load", f"all_located(result, {LOCARGS})"],
+  ensures=["isinstance(result, ast.Starred) and is_translation(result.value, '__xonsh__.subproc_captured_inject(*A0)', args)", "result.ctx is Load", f"all_located(result, {LOCARGS}, args)"],
   raises=[], pure=True, properties=["C05", "C06"])
 
 # macros: the raw text of every argument / of the block is handed over as a string Constant placed AT that text, with globals() and locals()
@@ -333,7 +333,7 @@ C(f"{F}:Parser.macro_call", params={"self": "obj:Parser", "a": EXPR, "b": "seq[T
            "len(result.args[1].elts) == len(b)",
            "all(isinstance(result.args[1].elts[j], ast.Constant) and result.args[1].elts[j].value == b[j].string for j in range(len(b)))",
            "all(node_start(result.args[1].elts[j]) == b[j].start and node_end(result.args[1].elts[j]) == b[j].end for j in range(len(b)))",
-           f"all_located(result, {LOCARGS}, a)",
+           f"all_located(result, {LOCARGS}, a, result.args[1].elts)",
            # the macro scan is over: the tokenizer is back in normal mode for what follows
            "self._tokenizer._call_macro == False"],
   modifies=["self._tokenizer._call_macro"], raises=[], properties=["C05", "C07", "C12", "C14"])
@@ -459,7 +459,7 @@ C(f"{F}:Parser._decode_fstring_parts", params={"self": "obj:Parser#strings", "pa
               "covered by the C10 stand-in (escape-in-literal classes)",
   ensures=[], raises=["SyntaxError"], may_raise=["SyntaxError"], raises_ensures=[WF], modifies=ERRMOD, properties=["C10"])
 C(f"{F}:Parser.handle_fstring", params={"self": "obj:Parser#strings", "a": "Tok", "b": "abslist[obj:StrPart]", **LOCS},
-  ensures=["isinstance(result, ast.JoinedStr) and result.values is b", f"all_located(result, {LOCARGS})",
+  ensures=["isinstance(result, ast.JoinedStr) and result.values is b", f"all_located(result, {LOCARGS}, b)",
            "implies(has_p_prefix(a.string), not is_none(self._path_token) and self._path_token.string == strip_p(a.string) and self._path_token.start == a.start "
            "and self._path_token.end == a.end and self._path_owner is result)",
            "implies(not has_p_prefix(a.string), self._path_token == old(self._path_token) and self._path_owner is old(self._path_owner))"],
